@@ -15,6 +15,7 @@ import (
 
 	"verif/sim"
 	"verif/simrt"
+	"verif/simtest/c10/relaysim"
 	. "verif/simtest/env"
 )
 
@@ -111,6 +112,7 @@ func execGraffiti(plan any, sched *simrt.Tape) *sim.Outcome {
 	pl := plan.(*graffitiPlan)
 	out := &sim.Outcome{Probes: map[string]int{}, Sample: pl, Nontrivial: true}
 	res := sim.Run(sched, time.Minute, 20000, nil, func(ctx context.Context) {
+		relaysim.SeedGlobalRand(int64(len(pl.Location)*131 + len(pl.Calls))) // the provider picks a line with math/rand
 		params := []dynamicgraffiti.Parameter{dynamicgraffiti.WithLogLevel(zerolog.Disabled), dynamicgraffiti.WithMajordomo(&graffitiStore{pl: pl}), dynamicgraffiti.WithLocation(pl.Location)}
 		if pl.Fallback != "" {
 			params = append(params, dynamicgraffiti.WithFallbackLocation(pl.Fallback))
